@@ -20,37 +20,37 @@ CHECKS = {
    technique=TECH+"exact comparison of each watch stream with the commit-tap log (reference change-log model) and lag-accounted overrun oracle",
    ref="DESIGN.md §7 C02"),
  "C03": dict(level="exploration",
-   text="Seeded search over interleavings of blocking lifecycle helpers (TeardownAndDestroy, WatchFor, ContextWithTeardown) with actors adding/removing finalizers, tearing down, destroying and re-creating the same resource; safety oracles over the commit log (no destroy with finalizers; success only after a destroy; WatchFor returns the first satisfying state for some establishment point; context cancelled iff a teardown/destroy/absence occurred) and no-missed-wake-up oracles evaluated at true quiescence.",
+   text="Seeded search over interleavings of blocking lifecycle helpers (TeardownAndDestroy, WatchFor, ContextWithTeardown) with actors adding/removing finalizers, tearing down, destroying and re-creating the same resource; safety oracles over the commit log (no destroy with finalizers; success only after a destroy; WatchFor returns the first satisfying state for some establishment point; context cancelled iff a teardown/destroy/absence occurred) and no-missed-wake-up oracles evaluated at true quiescence. Runs go through the direct state or the simulated gRPC leg (also against an old server without the Teardown RPCs, which exercises the client-side fallbacks); actor calls may be issued right after a named commit (teardown, finalizers emptied/added, destroyed, created) instead of at a random time.",
    note="Trusted: simrt + instrumenter; commit tap; reference evaluator of WatchFor conditions written from the documentation. Teardown's ready flag is checked in C04's run. Sampling only.",
    technique=TECH+"commit-log safety invariants and quiescence-time liveness oracles for blocked helpers",
    ref="DESIGN.md §7 C03"),
  "C04": dict(level="exploration",
-   text="Seeded search over concurrent UpdateWithConflicts / Modify / AddFinalizer / RemoveFinalizer / Teardown calls (state.State, owned.State, pkg/safe) with matching and mismatching owner/phase options and an adversary destroying/re-creating the resource; each call is matched against the commits its task made inside its call window: success = exactly one commit equal to the call's mutation applied to the predecessor value (or a justified no-op), error = no commit and a class justified by some state during the call.",
+   text="Seeded search over concurrent UpdateWithConflicts / Modify / AddFinalizer / RemoveFinalizer / Teardown calls (state.State, owned.State, pkg/safe) with matching and mismatching owner/phase options and an adversary destroying/re-creating the resource (at random times or right after a named commit); each call is matched against the commits its task made inside its call window: success = exactly one commit equal to the call's mutation applied to the predecessor value (or a justified no-op), error = no commit and a class justified by some state during the call.",
    note="Trusted: simrt + instrumenter; commit tap with task attribution. One open known finding (ABA across destroy/re-create at equal versions) is reported as KNOWN-FINDING, not as a violation. Sampling only.",
    technique=TECH+"per-call attribution of commits in the tap log against a mutation model (token conservation)",
    ref="DESIGN.md §7 C04"),
  "C12": dict(level="exploration",
-   text="Seeded search over histories and history-ring configurations; at quiescence a watch is resumed from EVERY bookmark of a reference stream and must be accepted inside the guaranteed window and deliver the exact continuation (each event again carrying the right bookmark), crash-and-resume watchers run while writes continue and must concatenate to the log, forged bookmarks (random, truncated, extended, cookie bit-flips, arbitrary positions, minted by another OS process) must be rejected with the invalid-bookmark class or yield an exact suffix, and tail requests must deliver a contiguous suffix of the right length.",
+   text="Seeded search over histories and history-ring configurations; at quiescence a watch is resumed from EVERY bookmark of a reference stream and must be accepted inside the guaranteed window and deliver the exact continuation (each event again carrying the right bookmark), crash-and-resume watchers run while writes continue and must concatenate to the log, forged bookmarks (random, truncated, extended, cookie bit-flips, arbitrary positions, minted by another OS process) must be rejected with the invalid-bookmark class or yield an exact suffix, and tail requests must deliver a contiguous suffix of the right length. A label/id-filtered reference watcher runs alongside: its stream must be the filtered log (moves into/out of the selection as Created/Destroyed) with the producing commit's bookmark on every event, filtered watches are resumed from every one of its bookmarks and filtered resumers crash and resume too.",
    note="Trusted: simrt + instrumenter; commit tap; the reference stream is itself checked against the tap. The 'other process incarnation' bookmark comes from a real child process of the worker. Sampling only.",
    technique=TECH+"resume-from-every-bookmark differential against the commit-tap log, forged-bookmark fault injection",
    ref="DESIGN.md §7 C12"),
  "C05": dict(level="exploration",
-   text="Seeded search over write histories, event batchings, delivery delays, controller busy times and registration times under controlled schedules (including starving the runtime's dedup/delivery goroutines and permuting map iteration); at every quiescent point (true quiescence: no runnable task, no timer within 10 virtual minutes) each probe controller's last observation of each declared input must equal the store, destroy-ready inputs must have been observed in that state, every pre-existing or changed queue primary must have been reconciled with current content, and mapped changes must have reached every primary the mapper names. Includes UpdateInputs (added and re-declared inputs), crowds of controllers on one kind, and injected List failures at the state seam.",
+   text="Seeded search over write histories, event batchings, delivery delays, controller busy times and registration times under controlled schedules (including starving the runtime's dedup/delivery goroutines and permuting map iteration); at every quiescent point (true quiescence: no runnable task, no timer within 10 virtual minutes) each probe controller's last observation of each declared input must equal the store, destroy-ready inputs must have been observed in that state, every pre-existing or changed queue primary must have been reconciled with current content, and mapped changes must have reached every primary the mapper names. Includes UpdateInputs (added and re-declared inputs), overlapping by-kind and by-id inputs of different kinds on one type, crowds of controllers on one kind, a state that coalesces aggregated watch batches, and injected List failures at the state seam.",
    note="Trusted: simrt + instrumenter; probe controllers are harness code reading through the runtime API; quiescence horizon 10 virtual minutes. Sampling only.",
    technique=TECH+"quiescence-point convergence oracle (last observation == store) with starvation and state-fault injection",
    ref="DESIGN.md §7 C05"),
  "C06": dict(level="exploration",
-   text="Seeded search over external operation histories on inputs and outputs, transform durations, finite scripts of transient transform/finalizer-removal failures and schedules, against the REAL transform.Controller / qtransform.QController (all option combinations) and destroy.Controller; at quiescence after the last fault the owned outputs must be exactly the images of the running-equivalent mapped inputs with latest content, no orphan or stale output unless held by a foreign finalizer, finalizers released once outputs are gone; a system that never goes quiet is reported as non-convergence with the controllers' error log.",
+   text="Seeded search over external operation histories on inputs and outputs, transform durations, finite scripts of transient transform/finalizer-removal failures (error, requeue, requeue-with-error, SkipReconcileTag - after which an existing output must be left untouched) and schedules, actor operations placed at random times or right after a named commit (output torn down / created / destroyed, input torn down, controller finalizer released), against the REAL transform.Controller / qtransform.QController (all option combinations) and destroy.Controller; at quiescence after the last fault the owned outputs must be exactly the images of the running-equivalent mapped inputs with latest content, no orphan or stale output unless held by a foreign finalizer, finalizers released once outputs are gone; a system that never goes quiet is reported as non-convergence with the controllers' error log.",
    note="Trusted: simrt + instrumenter; image function and 'running-equivalent' rule written from the option documentation; transform callbacks are harness code. Three genuine defects found here were repaired in /repo (see known_findings.json). Sampling only.",
    technique=TECH+"quiescence-time convergence oracle against a reference image of the inputs, with transient fault scripts",
    ref="DESIGN.md §7 C06"),
  "C07": dict(level="exploration",
-   text="Same world as C06 restricted to configurations with input finalizers plus the real cleanup.Controller; the finalizer-ordering invariants (finalizer on the input before the output first exists and until after it is destroyed; outputs destroyed only after tearing down with no finalizers; cleanup controller releases only after an instant without dependents; no input destroyed while a derived output exists) are evaluated on EVERY prefix of the totally ordered commit log.",
-   note="Trusted: simrt + instrumenter; commit tap. Dependents created by third parties after the teardown began are not counted against the cleanup handler. Sampling only.",
+   text="Same world as C06 restricted to configurations with input finalizers plus the real cleanup.Controller; the finalizer-ordering invariants (finalizer on the input before the output first exists and until after it is destroyed; outputs destroyed only after tearing down with no finalizers; cleanup controller releases only after, for each of its handlers, an instant since the teardown without that handler's dependents; no input destroyed while a derived output exists) are evaluated on EVERY prefix of the totally ordered commit log.",
+   note="Trusted: simrt + instrumenter; commit tap. Dependents created by third parties after the teardown began are not counted against the cleanup handler. Six genuine defects in this area (D6, D7, D14, D15, D16 and C06's D5) were repaired in /repo, three of them found only at budgets well above the quick tier. Sampling only.",
    technique=TECH+"safety invariants checked on every prefix of the commit-tap log",
    ref="DESIGN.md §7 C07"),
  "C09": dict(level="exploration",
-   text="Seeded search over interleavings of Put / Get / Release / Requeue(after) and the virtual clock on the REAL internal reconcile queue (reached through an overlaid build-tag facade), with history oracles for per-key exclusion, coalescing to the latest value, no lost notification, honoured requeue-after unless a fresh notification arrived (and no delay of a fresh notification by a pending backoff), and Len() = pending + held-back; plus the real queue runtime with a probe controller following scripted outcomes (ok, error, requeue, requeue-with-error, skip, panic): failed items are retried, requeue-after is never early, and retry delays after >=5 consecutive failures exceed every first-failure delay of the same run (growth and reset-on-success stated relative to delays observed in the run).",
+   text="Seeded search over interleavings of Put / Get / Release / Requeue(after) and the virtual clock on the REAL internal reconcile queue (reached through an overlaid build-tag facade), with history oracles for per-key exclusion, coalescing to the latest value, no lost notification, honoured requeue-after unless a fresh notification arrived (and no delay of a fresh notification by a pending backoff), and Len() = pending + held-back; plus the real queue runtime with a probe controller following scripted outcomes (ok, error, requeue, requeue-with-error, skip, panic): reconciles take a virtual duration, failed items are retried, a requested requeue delay is never cut short (measured from the return of the reconcile), and retry delays after >=5 consecutive failures exceed every first-failure delay of the same run (growth and reset-on-success stated relative to delays observed in the run).",
    note="Trusted: simrt + instrumenter; the facade file is overlaid at build time (add-only, nothing committed to /repo). The hand-over instant of an item is only known to lie between the worker's wait and get records; the oracles use only what is certain under that uncertainty. cenkalti/backoff jitter is real (seeded per run). Sampling only.",
    technique=TECH+"history oracles over recorded queue operations against a reference notion of pending/held items; scripted outcome fault sequences for backoff",
    ref="DESIGN.md §7 C09"),
@@ -65,7 +65,7 @@ CHECKS = {
    technique=TECH+"differential execution direct vs. simulated gRPC leg, malformed-request fault injection at the wire interface",
    ref="DESIGN.md §7 C11"),
  "C13": dict(level="fault_enumeration",
-   text="For every sampled history (writers keep writing to the server during outages; one client-side watch of any flavour) the fault-free run is followed by the enumeration of every stream message index as reset point, alone, followed by 1-3 failed re-establishments (at Watch() or at first Recv) and by a second reset of the resumed stream, plus establishment failures, retries-disabled and sampled multi-reset / long-outage scripts. Each sub-run's client stream must be the server's commit log from its establishment point without loss, duplication or reordering, or a gap-free prefix ending in exactly one Errored that has a permitted cause (no bookmark seen, bookmark expired, retries disabled or exhausted).",
+   text="For every sampled history (writers keep writing to the server during outages; one client-side watch of any flavour) the fault-free run is followed by the enumeration of every stream message index as reset point, alone, followed by 1-3 failed re-establishments (at Watch() or at first Recv) and by a second reset of the resumed stream, plus establishment failures, watches started with tail events or carrying label/id selectors (a resumed watch must keep the selector and continue from its bookmark, not from the tail again), retries-disabled and sampled multi-reset / long-outage scripts. Each sub-run's client stream must be the server's commit log from its establishment point without loss, duplication or reordering, or a gap-free prefix ending in exactly one Errored that has a permitted cause (no bookmark seen, bookmark expired, retries disabled or exhausted).",
    note="Trusted: simrt + instrumenter; commit tap on the server store; transport stub as in C11; cenkalti/backoff runs for real on the virtual clock (15-minute retry budget costs microseconds). In the quick tier the enumeration is sampled down to 30 scripts per history when larger (reported as enumeration-sampled vs enumeration-complete probes); the thorough tier runs all.",
    technique=TECH+"per-history enumeration of stream-reset positions and re-establishment failures on the simulated transport, stream compared with the server's commit-tap log",
    ref="DESIGN.md §7 C13"),
@@ -75,12 +75,12 @@ CHECKS = {
    technique=TECH+"differential against an independent reference selector evaluator over lists at four evaluation sites and over filtered watch streams derived from the commit-tap log",
    ref="DESIGN.md §7 C14"),
  "C15": dict(level="exploration",
-   text="Seeded search over write histories before, during and after runtime start, aggregated-watch batchings (a harness state wrapper coalesces batches over a random window), reader timings and schedules, with type A served from the runtime read cache: every cached Get/List (with label/id selectors) of external readers - started before the runtime so that they block across the bootstrap - must equal the selector-filtered store contents at SOME commit position between runtime start and the read's return (no partial bootstrap view, no state that never existed), a reader's successive views never go back, at quiescence cached == uncached for every selector and every probe controller's last cached observation is current (a notification never overtakes its cache update), and teardown-bound contexts obtained through the cache are cancelled iff the resource was torn down, removed or absent.",
+   text="Seeded search over write histories before, during and after runtime start, aggregated-watch batchings (a harness state wrapper coalesces batches over a random window), reader timings and schedules, with type A served from the runtime read cache: every cached Get/List (with label/id selectors) of external readers - started before the runtime so that they block across the bootstrap - must equal the selector-filtered store contents at SOME commit position between runtime start and the read's return (no partial bootstrap view, no state that never existed), a reader's successive views never go back, at quiescence cached == uncached for every selector and every probe controller's last cached observation is current (a notification never overtakes its cache update), and teardown-bound contexts obtained through the cache are cancelled iff the resource was torn down, removed or absent - also when a sibling context for the same resource, under its own parent, went away earlier.",
    note="Trusted: simrt + instrumenter; commit tap; reference selector evaluator; the batch-coalescing wrapper is harness code producing legal re-batchings. The white-box in-package cache sequence test mentioned in DESIGN was not built (the black-box oracle proved sufficient for the seeded changes). Sampling only.",
    technique=TECH+"each cached read matched against the set of historical store states from the commit-tap log; quiescence-time cached/uncached differential",
    ref="DESIGN.md §7 C15"),
  "C16": dict(level="exploration",
-   text="Seeded search over finite fault scripts and schedules: controllers erroring or panicking at Run start, at the first reconcile, after one healthy cycle or between StartTrackingOutputs and CleanupOutputs; run hooks failing at once or after two healthy virtual minutes; pkg/task tasks failing and panicking; queue items following outcome scripts; a tiny history that makes the runtime's own watch overrun; cancellation at a random virtual instant while controllers write. Oracles: Run keeps running under controller faults, every failed unit is restarted and (controllers) reconciles again, healthy controllers stay current at every quiescent point while others fail, restart delays after >=5 consecutive failures exceed every first-failure delay of the same run and reset after a healthy cycle, the whole system converges after the last fault; on a watch failure Run returns that error and nothing reconciles afterwards; after cancellation Run returns, the task table is empty (no goroutine, watch or hook left) and the commit tap shows no write by a runtime task after the return.",
+   text="Seeded search over finite fault scripts and schedules: controllers erroring or panicking at Run start, at the first reconcile, after one healthy cycle or between StartTrackingOutputs and CleanupOutputs; run hooks failing at once or after two healthy virtual minutes; pkg/task tasks failing and panicking; queue items following outcome scripts; a tiny history that makes the runtime's own watch overrun; cancellation at a random virtual instant while controllers write. Oracles: Run keeps running under controller faults, every failed unit is restarted and (controllers) reconciles again, healthy controllers stay current at every quiescent point while others fail, restart delays after >=5 consecutive failures exceed every first-failure delay of the same run and reset after a healthy cycle, the whole system converges after the last fault; on a watch failure Run returns that error and nothing reconciles afterwards, while as long as Run keeps running after a burst no notification may have been lost silently, and a cancellation racing the watch failure must still let Run return; after cancellation Run returns, the task table is empty (no goroutine, watch or hook left) and the commit tap shows no write by a runtime task after the return.",
    note="Trusted: simrt + instrumenter; controller/hook/task bodies are harness code following the scripts; backoff jitter is real (seeded). Backoff oracles compare delays observed in the same run, not library constants. Sampling only.",
    technique=TECH+"scripted fault sequences (error/panic at chosen invocations, watch overrun, cancellation instant) with containment, backoff-shape and clean-shutdown oracles",
    ref="DESIGN.md §7 C16"),
